@@ -212,6 +212,8 @@ def run(chk):
                 [None, None, None, None, None, None, None],
                 [-7, -0.25, strs[1], False, datetime.datetime(1999, 12, 31), datetime.datetime(2001, 1, 1, 0, 0, 0), True],
                 [rnd.choice([30, 2**53 + 1, -(2**53 + 3), 2**62 + 1]), 2.0, strs[2], True, datetime.datetime(2031, 7, 4), datetime.datetime(2031, 7, 4, 5, 6, 7), True]]       # (integers no double holds, next to a null)
+        if rnd.random() < 0.15:
+            data = []           # a table with a header and no records still has its declared types
         cells = []
         for row in data:
             cells.append([None if row[0] is None else str(row[0]), None if row[1] is None else repr(row[1]),
